@@ -227,7 +227,10 @@ def c11_1(ctx: Ctx):
                 if fn in ("min", "max", "sorted"):
                     n_sites += 1
                     ok, why = _key_is_total(fi, n)
-                    k = f"{q}::{fn}::{src(a0)[:60]}"
+                    kw = next((x.value for x in n.keywords if x.arg == "key"), None)
+                    kt = src(kw.body if isinstance(kw, ast.Lambda) else kw) if kw is not None else "<natural>"
+                    # the sort key is part of the finding's identity: a different (non-total) key ties on different inputs
+                    k = f"{q}::{fn}::{src(a0)[:60]}::by::{kt[:50]}"
                     ctx.check(ok, fi, n, f"{fn}(`{src(a0)[:50]}`, key=...)",
                               f"{why}: ties are broken by set iteration order, so blocks that share the key (same address/offset: overlapping or zero-sized blocks) "
                               "come out in a different order from run to run", reason_ok=why, key=k)
